@@ -27,7 +27,7 @@ TRUSTED = [
 ASSUMPTIONS = [
     'ordering operators with a blank operand are not constrained by the statement (the code returns FALSE)',
     'blank compared with a date is not constrained by C09 (C07 covers the no-crash clause)',
-    'dates are whole days (the time-of-day slip D45 belongs to C18)',
+    'dates are whole days, or moments of ONE day compared with each other (across days the time-of-day slip D45 of C18 decides)',
 ]
 
 OPS = {'EQ': 'OP_EQ', 'NE': 'OP_NE', 'LT': 'OP_LT', 'GT': 'OP_GT', 'LE': 'OP_LE', 'GE': 'OP_GE'}
@@ -196,6 +196,47 @@ def run(ctx):
                                        'input': {'op': o, 'left': repr(a), 'right': repr(b), 'route': 'formula',
                                                  'blank': how, 'cells': repr(cells)},
                                        'expected': want, 'got': got})
+    # (b) moments of ONE day and texts mixing ASCII with non-ASCII letters: the order is decided by the time of day /
+    # by the case-insensitive letters whatever class of text the other operand is.  (Across days a time of day is
+    # known finding D45 of C18: the fraction is scaled wrongly; within one day the order of the fractions is what counts.)
+    dd = datetime.datetime
+    moments = [dd(2021, 3, 14), dd(2021, 3, 14, 6, 0), dd(2021, 3, 14, 18, 0), dd(2021, 3, 14, 18, 0, 1),
+               dd(2021, 3, 14, 23, 59, 59)]
+    mixed = ['café', 'dog', 'Müller', 'nash', 'señor', 'TABLE', 'apé', 'Zoo', 'zoë', 'apple', 'CAFÉ', 'Cafe', 'cafe',
+             'ÉCOLE', 'ecole', 'eagle', 'Éa', 'ea', 'naïve', 'NAIVE', 'naive', 'ñu', 'nu', 'Nz']
+
+    def ci_key(t):      # reference: case-insensitive comparison letter by letter (no expanding characters in the pool)
+        return [ord(c.upper()) if len(c.upper()) == 1 else ord(c) for c in t]
+
+    def ref(o, ka, kb):
+        return 'B:1' if {'EQ': ka == kb, 'NE': ka != kb, 'LT': ka < kb, 'GT': ka > kb, 'LE': ka <= kb, 'GE': ka >= kb}[o] else 'B:0'
+    for group, keyf in ((moments, lambda v: v), (mixed, ci_key)):
+        for a, b in itertools.product(group, repeat=2):
+            cells = {'Sheet1!A1': 0, 'Sheet1!B1': 0}
+            for i, o in enumerate(OPS):
+                cells[f'Sheet1!C{i + 1}'] = f'=A1{SYM[o]}B1'
+            try:
+                model = ModelCompiler().read_and_parse_dict(cells)      # (a datetime cannot be given in the dict)
+                model.set_cell_value('Sheet1!A1', a)
+                model.set_cell_value('Sheet1!B1', b)
+                ev = Evaluator(model)
+            except Exception as exc:  # noqa: BLE001
+                res.violations.append({'what': 'model does not compile', 'input': {'cells': repr(cells)}, 'expected': 'a model',
+                                       'got': repr(exc)})
+                continue
+            for i, o in enumerate(OPS):
+                want = ref(o, keyf(a), keyf(b))
+                for route, got in (('typed', call_real(xl.FUNCTIONS[OPS[o]], typed(a), typed(b))),
+                                   ('formula', call_real(ev.evaluate, f'Sheet1!C{i + 1}'))):
+                    res.evaluations += 1
+                    res.count('same-day-moments' if group is moments else 'mixed-ascii-texts')
+                    res.nontrivial.add(('grp', o, repr(a), repr(b), route))
+                    if got != want:
+                        res.violations.append({'what': f'{OPS[o]} disagrees with the total order '
+                                                       + ('(moments of one day order by their time)' if group is moments
+                                                          else '(texts compare case-insensitively)'),
+                                               'input': {'op': o, 'left': repr(a), 'right': repr(b), 'route': route},
+                                               'expected': want, 'got': got})
     # operands that are RESULTS of functions returning native Python values (COUNT, MAX, ISBLANK…): the
     # comparison must still follow the one order (TRUE is not 1), inside one formula and across cells (D64)
     producers = {'COUNT(1)': 1, 'COUNT(1,2)': 2, 'COUNTA(Z9)': 0, 'MAX(1,2)': 2, 'MIN(0,5)': 0, 'ISBLANK(Z9)': True,
